@@ -6,6 +6,9 @@ import JominiModel.Proofs.WriterFlat
 import JominiModel.Spec.WriterNested
 import JominiModel.Proofs.WriterNested
 import JominiModel.Proofs.WriterParse
+import JominiModel.Spec.WriterArrays
+import JominiModel.Proofs.WriterArrays
+import JominiModel.Proofs.TextTapeFaithful3
 /-
 C15 — Well-formed sequences of writer calls parse back to exactly what was written.
 Only property theorems live here; helper lemmas are in `Proofs/Writer.lean`, reference
@@ -286,6 +289,36 @@ example :
          .unquoted ⟨1, [99]⟩] false := by
   decide +kernel
 
+/-- The typed scalar calls need no hypothesis: whatever the value, the text `write_bool`,
+`write_i32` / `write_u32` / `write_i64` / `write_u64` and `write_date` (all three formats, with or
+without hour, negative years) produce is a well-formed unquoted scalar of the text format
+(non-empty, no boundary byte, not starting with a blank, `"` or `@`). -/
+theorem C15_typed_scalars_valid (c : SCall) (h : c.isTyped) : c.scal.Valid := by
+  apply scall_valid
+  cases c <;> first | trivial | exact h.elim
+
+/-- Flat documents whose values are typed scalar calls (booleans, integers, dates) parse back to
+exactly the described tokens: only the caller-supplied keys have to be scalars of the format.
+(`C15_parse_back_flat` / `C15_parse_back_nested` cover the typed calls in every position, keys
+included; this is the instance without a hypothesis on the values.) -/
+theorem C15_parse_back_typed (fs : List FField) (c : UInt8) (f : Nat)
+    (hk : ∀ x ∈ fs, x.key.Valid) (hv : ∀ x ∈ fs, x.val.isTyped)
+    (hb : TextTape.hasBom (run (fcalls fs) (State.init c f)).1.out = false) :
+    ∃ T, TextTape.parse (run (fcalls fs) (State.init c f)).1.out = .ok T false ∧
+      T.map TextTape.Tok.erase = TextTape.contentFlat (fs.map fun x => x.item.content) := by
+  refine C15_parse_back_flat fs c f (fun x hx => ⟨hk x hx, ?_⟩) hb
+  have := hv x hx
+  cases hval : x.val <;> rw [hval] at this <;> first | trivial | exact this.elim
+
+/-- `a=yes`, `b=-5`, `c=1444.11.11`, `d=-005-01-02T09` -/
+example : TextTape.parse (run (fcalls [⟨.unq [97], none, .bool true⟩, ⟨.unq [98], none, .i64 (-5)⟩,
+      ⟨.unq [99], none, .date .dotShort 1444 11 11 0⟩, ⟨.unq [100], none, .date .iso8601 (-5) 1 2 10⟩])
+      (State.init 32 2)).1.out =
+    .ok [.unquoted ⟨39, [97]⟩, .unquoted ⟨37, [121, 101, 115]⟩, .unquoted ⟨33, [98]⟩, .unquoted ⟨31, [45, 53]⟩,
+         .unquoted ⟨28, [99]⟩, .unquoted ⟨26, [49, 52, 52, 52, 46, 49, 49, 46, 49, 49]⟩, .unquoted ⟨15, [100]⟩,
+         .unquoted ⟨13, [45, 48, 48, 53, 45, 48, 49, 45, 48, 50, 84, 48, 57]⟩] false := by
+  decide +kernel
+
 /-- `C15_lexemes` for nested objects, to any depth and for every indent byte and factor: a call
 list that writes root fields whose values are scalars (`write_unquoted` / `write_quoted`) or
 non-empty objects (`write_object_start … write_end`), with implicit or explicit operators, produces
@@ -336,6 +369,52 @@ example : TextTape.parse (run (ncallsF (.cons (.unq [97]) none
          .endTok 1] false := by
   decide +kernel
 
+/-- `C15_lexemes` for arrays of scalars and empty containers with every start flavour: root
+fields whose values are scalars, non-empty arrays of scalars opened with `write_array_start` or with
+`write_start` (kind unknown until the second element shows it is an array), or empty containers
+opened in any of the three ways.  The bytes: `key<sep>{`, the elements on one line indented one
+level and separated by single spaces, `}` on its own line; an empty container is `{ }` whatever
+call opened it.  For every indent byte and factor. -/
+theorem C15_lexemes_arrays (fs : List AField) (c : UInt8) (f : Nat) :
+    (run (acalls fs) (State.init c f)).1.out = atext c f fs true :=
+  lexemes_arrays fs c f
+
+/-- …and they parse back (writer model → tape parser model, through the text-tape slice's
+fragment-3 theorem) to exactly the described tape: keys, operators, an `Array{end}` … `End` pair
+around the elements of every array, `Array{end}`,`End` for every empty container — in particular
+`write_start` followed by scalars resolves to an array exactly like `write_array_start`, and the
+three ways of opening an empty container are indistinguishable.  Hypotheses: the caller-supplied
+unquoted payloads are scalars of the text format, the indent byte is one the parser treats as
+blank, the text does not begin with the three BOM bytes. -/
+theorem C15_parse_back_arrays (fs : List AField) (c : UInt8) (f : Nat)
+    (hc : TextTape.isBlank c = true) (hv : ∀ x ∈ fs, x.key.Valid ∧ x.val.Valid)
+    (hb : TextTape.hasBom (run (acalls fs) (State.init c f)).1.out = false) :
+    ∃ T, TextTape.parse (run (acalls fs) (State.init c f)).1.out = .ok T false ∧
+      T.map TextTape.Tok.erase = TextTape.ktapeF (acontent fs) 0 := by
+  rw [C15_lexemes_arrays] at hb ⊢
+  have hvalid : TextTape.JValidF (WriterParse.alayout c f fs true) [] := by
+    apply WriterParse.valid_alayout c f hc fs true
+    intro x hx
+    obtain ⟨hk, hval⟩ := hv x hx
+    refine ⟨scall_valid _ hk, ?_, ?_⟩
+    · intro s hs; rw [hs] at hval; exact scall_valid _ hval
+    · intro u a rest hs
+      rw [hs] at hval
+      exact ⟨scall_valid _ hval.1, fun e he => scall_valid _ (hval.2 e he)⟩
+  have hr := WriterParse.jrenderF_alayout c f fs true
+  have := TextTape.faithful_tree (WriterParse.alayout c f fs true) [] .nil hvalid
+    (by rw [List.append_nil, hr]; exact hb)
+  rw [List.append_nil, hr, WriterParse.kcontentF_alayout] at this
+  exact this
+
+/-- `a={ 1 "x" }` via `write_start`, `b={ }` via `write_object_start`, `c < yes` -/
+example : TextTape.parse (run (acalls [⟨.unq [97], none, .arr true (.i64 1) [.quo [120]]⟩,
+      ⟨.unq [98], none, .empty .objectStart⟩, ⟨.unq [99], some .lt, .scal (.bool true)⟩]) (State.init 32 2)).1.out =
+    .ok [.unquoted ⟨27, [97]⟩, .array 4 false, .unquoted ⟨21, [49]⟩, .quoted ⟨18, [120]⟩, .endTok 1,
+         .unquoted ⟨13, [98]⟩, .array 7 false, .endTok 6, .unquoted ⟨7, [99]⟩, .operator .lt,
+         .unquoted ⟨3, [121, 101, 115]⟩] false := by
+  decide +kernel
+
 /-
 Growth theorem, NOT proved in general (full statement kept; `C15_lexemes_partial` is its flat instance):
 
@@ -348,10 +427,11 @@ Growth theorem, NOT proved in general (full statement kept; `C15_lexemes_partial
   hence, with C01's `C01_faithful`, `parse (run cs _).out = tapeOf (docOf cs)`.
 
   Proved so far: flat documents (`C15_lexemes_flat`, `C15_parse_back_flat`) and nested objects
-  to any depth (`C15_lexemes_nested`, `C15_parse_back_nested`).  Missing: arrays
-  (`write_array_start`, and the object/array resolution of `write_start`), empty containers,
-  headers / rgb, the typed scalar calls (integers, dates, booleans: their text is modelled, what
-  is missing is only that it is a valid unquoted scalar) and `write_binary` forwarding.  Until then the clause is decided on the real code: the harness re-parses the
+  to any depth (`C15_lexemes_nested`, `C15_parse_back_nested`), root-level arrays of scalars
+  and empty containers with every start flavour (`C15_lexemes_arrays`, `C15_parse_back_arrays`),
+  the typed scalar calls in every scalar position (`C15_typed_scalars_valid`).  Missing: arrays
+  nested in containers and arrays of containers, objects opened with `write_start` /
+  `write_array_start` + operator, headers / rgb, and `write_binary` forwarding.  Until then the clause is decided on the real code: the harness re-parses the
   output of every well-formed call list with `TextTape::from_slice` and compares it with an
   independent transcription of the described document (oracle kinds `wf-parse-back`,
   `wf-output-does-not-parse`, `wf-state`).
